@@ -1,6 +1,6 @@
 (** * Stage B: structured control without loops and calls (block / if / else / end, br, br_if)
     on top of the straight-line simulation.  See [compile_block_correct] at the end for the
-    exact statement and [blocks_ok] for the admitted constructs. *)
+    exact statement and [blocks_ok] for the accepted constructs. *)
 From Coq Require Import ZArith NArith List Lia Bool FMapPositive.
 From CB Require Import Common.IntN Common.IntNProofs Wasm.Syntax Wasm.Opcodes Wasm.Sem Wasm.Compile Wasm.Machine
      Wasm.MachineLemmas Wasm.CompileLemmas Wasm.NumOpsProofs Wasm.SemProofs Wasm.StraightProofs Wasm.BlockProofs.
